@@ -322,7 +322,16 @@ class Inliner:
                         setattr(st, fld, self.process_block(b, cls, selfname, local_fns, caller_fn, depth))
                 for h in getattr(st, "handlers", []) or []:
                     h.body = self.process_block(h.body, cls, selfname, local_fns, caller_fn, depth)
-                # helper calls in the header (test / iter): only expression-like helpers
+                # an `if` evaluates its test exactly once: helper calls there can be inlined in front of the statement
+                if isinstance(st, ast.If) and depth < MAX_DEPTH:
+                    probe = ast.Expr(value=st.test)
+                    probe._keep_value = True
+                    ast.copy_location(probe, st)
+                    pre = self.process_block([probe], cls, selfname, local_fns, caller_fn, depth + 1)
+                    if len(pre) > 1 and pre[-1] is probe:
+                        st.test = probe.value
+                        out += pre[:-1]
+                # other helper calls in a header (while test / for iter): only expression-like helpers
                 hdr = st.test if isinstance(st, (ast.If, ast.While)) else (st.iter if isinstance(st, ast.For) else None)
                 if hdr is not None:
                     new = self.substitute_expressions(hdr, cls, selfname, local_fns)
@@ -364,7 +373,7 @@ class Inliner:
                         lowered = lower_returns(body, ret)
                     except GiveUp:
                         continue
-                    if isinstance(st, ast.Expr) and st.value is call:
+                    if isinstance(st, ast.Expr) and st.value is call and not getattr(st, "_keep_value", False):
                         # a bare call: the returned value is dropped
                         new_stmts = prelude + lowered
                     else:
@@ -553,6 +562,106 @@ def sink_alias_selection(tree):
                     i -= 1
 
 
+def _path(e):
+    """('self', 'bins') for self.bins ; None if e is not a plain attribute path rooted at a name"""
+    parts = []
+    while isinstance(e, ast.Attribute):
+        parts.append(e.attr)
+        e = e.value
+    if isinstance(e, ast.Name) and parts:
+        return (e.id,) + tuple(reversed(parts))
+    return None
+
+
+def eliminate_attribute_aliases(tree):
+    """N10  `mine = self.bins` (also in tuple form), never re-bound, while `self.bins` itself is never re-bound in the function:
+    every use of `mine` is written as `self.bins` and the assignment disappears."""
+    for fn in ast.walk(tree):
+        if not isinstance(fn, (ast.FunctionDef, ast.AsyncFunctionDef)):
+            continue
+        a = fn.args
+        params = {x.arg for x in a.posonlyargs + a.args + a.kwonlyargs}
+        stores = {}
+        for x in ast.walk(fn):
+            if isinstance(x, ast.Name) and isinstance(x.ctx, (ast.Store, ast.Del)):
+                stores[x.id] = stores.get(x.id, 0) + 1
+        # attribute paths that are (re)bound somewhere in the function
+        rebound = set()
+        for x in ast.walk(fn):
+            tg = []
+            if isinstance(x, ast.Assign):
+                tg = list(x.targets)
+            elif isinstance(x, (ast.AugAssign, ast.AnnAssign)):
+                tg = [x.target]
+            elif isinstance(x, ast.Delete):
+                tg = list(x.targets)
+            elif isinstance(x, (ast.For, ast.comprehension)):
+                tg = [x.target]
+            for t in tg:
+                for y in ([t] if not isinstance(t, (ast.Tuple, ast.List)) else t.elts):
+                    p = _path(y)
+                    if p:
+                        rebound.add(p)
+        cands = {}      # local -> (path expr, assign stmt, index in tuple or None)
+        for x in ast.walk(fn):
+            if isinstance(x, ast.Assign) and len(x.targets) == 1:
+                t, v = x.targets[0], x.value
+                pairs = []
+                if isinstance(t, ast.Name):
+                    pairs = [(t, v, None)]
+                elif isinstance(t, ast.Tuple) and isinstance(v, ast.Tuple) and len(t.elts) == len(v.elts) and all(isinstance(e, ast.Name) for e in t.elts):
+                    pairs = [(tt, vv, i) for i, (tt, vv) in enumerate(zip(t.elts, v.elts))]
+                for tt, vv, i in pairs:
+                    p = _path(vv)
+                    if p is None or tt.id in params or stores.get(tt.id) != 1:
+                        continue
+                    if p[0] not in params or stores.get(p[0], 0) != 0:
+                        continue
+                    if any(p[:k] in rebound for k in range(2, len(p) + 1)):
+                        continue
+                    cands[tt.id] = (vv, x, i)
+        if not cands:
+            continue
+        mapping = {name: expr for name, (expr, _, _) in cands.items()}
+
+        class Sub(ast.NodeTransformer):
+            def visit_Name(self, n):
+                if n.id in mapping and isinstance(n.ctx, ast.Load):
+                    return ast.copy_location(copy.deepcopy(mapping[n.id]), n)
+                return n
+        # remove the alias assignments first (so that their own targets are not touched), then substitute
+        dead = {}
+        for name, (expr, st, i) in cands.items():
+            dead.setdefault(id(st), (st, set()))[1].add(i)
+        for node in ast.walk(fn):
+            for fld in ("body", "orelse", "finalbody"):
+                b = getattr(node, fld, None)
+                if not (isinstance(b, list) and b and isinstance(b[0], ast.stmt)):
+                    continue
+                newb = []
+                for st in b:
+                    if id(st) in dead:
+                        _, idxs = dead[id(st)]
+                        if None in idxs:
+                            continue
+                        t, v = st.targets[0], st.value
+                        keep = [i for i in range(len(t.elts)) if i not in idxs]
+                        if not keep:
+                            continue
+                        if len(keep) == 1:
+                            st.targets = [t.elts[keep[0]]]
+                            st.value = v.elts[keep[0]]
+                        else:
+                            t.elts = [t.elts[i] for i in keep]
+                            v.elts = [v.elts[i] for i in keep]
+                    newb.append(st)
+                if not newb:
+                    newb = [ast.copy_location(ast.Pass(), b[0])]
+                b[:] = newb
+        Sub().visit(fn)
+    ast.fix_missing_locations(tree)
+
+
 def apply(tree, helpers=True):
     if helpers:
         try:
@@ -562,6 +671,7 @@ def apply(tree, helpers=True):
     for fn in ast.walk(tree):
         if isinstance(fn, (ast.FunctionDef, ast.AsyncFunctionDef)):
             unfold_return_guards(fn)
+    eliminate_attribute_aliases(tree)
     sink_alias_selection(tree)
     ast.fix_missing_locations(tree)
     return tree
